@@ -340,6 +340,30 @@ pub fn gen_docs(kind: &str, opts: &Opts, rng: &mut Rng) -> Vec<Vec<Child>> {
             docs.push(d);
         }
     }
+    // many rpc-errors (limits on how many are kept): n warnings, then one of severity error, then the
+    // positive indication — success would hide the error
+    let a = alphabet(rng);
+    let (err_e, err_w) = (a[1].clone(), a[2].clone());
+    for n in [255usize, 1023, 1024, 1025, 1100] {
+        let mut many: Vec<Child> = (0..n).map(|_| err_w.clone()).collect();
+        many.push(err_e.clone());
+        if kind == "load" {
+            let mut inner = many.clone();
+            inner.push(Child::Ok);
+            docs.push(vec![Child::Results(inner)]);
+            let mut inner = many.clone();
+            inner.push(Child::Count(n + 1));
+            docs.push(vec![Child::Results(inner)]);
+        } else {
+            let mut d = many.clone();
+            match kind {
+                "empty" => d.push(Child::Ok),
+                "data" => d.push(Child::Data("<configuration><a>1</a></configuration>")),
+                _ => {}
+            }
+            docs.push(d);
+        }
+    }
     docs
 }
 
